@@ -567,9 +567,13 @@ pub fn consistent(d: &Automerge, out: &mut CaseOut, deep: bool) {
                 let _ = f.get_heads();
             }
         }
+        // the harness's own actors must not collide with an actor id that a mutation produced
+        let used: std::collections::BTreeSet<Vec<u8>> = changes.iter().map(|c| c.actor_id().to_bytes().to_vec()).collect();
+        let mut free = (0x21u8..0x60).filter(|b| !used.contains(&actor(*b).to_bytes().to_vec()));
+        let (edit_actor, other_actor) = (free.next().unwrap_or(0x21), free.next().unwrap_or(0x22));
         // one edit of each theme
         for th in crate::alphabet::THEMES.iter().take(if deep { 99 } else { 3 }) {
-            let mut x = d.clone().with_actor(actor(0x21));
+            let mut x = d.clone().with_actor(actor(edit_actor));
             for op in crate::alphabet::theme(th) {
                 if let crate::world::EditResult::Done = crate::world::edit_commit(&mut x, op) {
                     break;
@@ -578,7 +582,7 @@ pub fn consistent(d: &Automerge, out: &mut CaseOut, deep: bool) {
             let _ = crate::obs::observe(&x, None, &[]);
         }
         // merge with a pristine replica in both directions
-        let mut other = Automerge::new().with_actor(actor(0x22));
+        let mut other = Automerge::new().with_actor(actor(other_actor));
         {
             let mut tx = other.transaction();
             tx.put(ROOT, "other", 1).map_err(|e| format!("{:?}", e))?;
